@@ -1,10 +1,9 @@
 (* C05 — substructural discipline: every channel used once unless dropped or split.
    Statement: spec/Linear.v (untyped path counting: LinearProgram) and spec/Indep.v
    (DropSplitProgram: a drop needs a weakenable mode, a split a contractable mode, stated on the
-   sequents of spec/Sequents.v).  Premises: uninit_prog (the parser creates names without channels)
-   and env_moded_b (the mode recorded for a type definition is the mode of its body; needed only for
-   the split side condition, where the checker tests the unfolded type).  Both premises are
-   evaluated on every parsed program by the executable oracle of the check.
+   sequents of spec/Sequents.v).  Premise: uninit_prog (the parser creates names without channels),
+   evaluated on every parsed program by the executable oracle of the check.  (That the mode recorded
+   for a type definition is the mode of its body is established by the checker since the fix of F23.)
    History: the full statement was false of the tree as first pinned: F4, F13, F20 (fixed earlier)
    and F21, F22 (found by this proof: binders that shadow a live name / the provider's name; fixed). *)
 Require Import Grits.Base Grits.Forms Grits.Expand Grits.Tc Grits.TcTop
@@ -21,7 +20,7 @@ Proof. exact tc_form_linear. Qed.
 Theorem C05_program : forall p p', uninit_prog p = true -> typecheck p = Accept p' -> LinearProgram p.
 Proof. exact tc_linear. Qed.
 
-Theorem C05_drop_split_modes : forall p p', env_moded_b (p_types p) = true -> typecheck p = Accept p' -> DropSplitProgram p p'.
+Theorem C05_drop_split_modes : forall p p', typecheck p = Accept p' -> DropSplitProgram p p'.
 Proof. exact tc_drop_split_program. Qed.
 
 (* the executable oracle of the check decides the statement, and the model never accepts what it flags *)
@@ -29,7 +28,7 @@ Theorem C05_oracle_exact : forall p, linear_program_b p = true <-> LinearProgram
 Proof. exact linear_program_b_iff. Qed.
 Theorem C05_oracle_agrees : forall p p', uninit_prog p = true -> typecheck p = Accept p' -> linear_program_b p = true.
 Proof. exact lin_oracle_agrees. Qed.
-Theorem C05_oracle_modes_agrees : forall p p', env_moded_b (p_types p) = true -> typecheck p = Accept p' -> drop_split_program_b p = true.
+Theorem C05_oracle_modes_agrees : forall p p', typecheck p = Accept p' -> drop_split_program_b p = true.
 Proof. exact drop_split_oracle_agrees. Qed.
 
 (* non-vacuity: an accepted program with drop, split, cuts and a case; its path counts *)
